@@ -5,14 +5,15 @@ against (compared in `Rare.Props.C15` with what the translator regenerates from 
 namespace Rare.Follow.Expected
 
 /-- the watcher goroutine: Write → eventWrite, Remove → eventDelete, Rename (the followed name moved away) →
-    eventDelete with re-open and nothing without (`Rare.Follow.renameEv`), Create → eventWrite, events of
-    other names and other kinds (Chmod) → nothing; tested in this order -/
+    eventDelete with re-open and nothing without (`Rare.Follow.renameEv`), Create → eventWrite and, with
+    re-open, eventDelete as well (`Rare.Follow.dispatch1`: a file renamed onto the path raises only Create),
+    events of other names and other kinds (Chmod) → nothing; tested in this order -/
 def watcherSwitch : List (String × String) := [("!ok", "return"),
   ("path.Base(s.filename)!=path.Base(event.Name)", ""),
   ("event.Op&fsnotify.Write!=0", "writeSignalNonBlock(s.eventWrite)"),
   ("event.Op&fsnotify.Remove!=0", "writeSignalNonBlock(s.eventDelete)"),
   ("event.Op&fsnotify.Rename!=0&&s.ReOpen", "writeSignalNonBlock(s.eventDelete)"),
-  ("event.Op&fsnotify.Create!=0", "writeSignalNonBlock(s.eventWrite)")]
+  ("event.Op&fsnotify.Create!=0", "writeSignalNonBlock(s.eventWrite);ifs.ReOpen{writeSignalNonBlock(s.eventDelete)}")]
 
 def watcherSkeleton : List String := ["defer:watcher.Close", "for{", "recv:watcher.Events", "return", "}"]
 
